@@ -382,6 +382,11 @@ pub fn bind_and_verify(p: &mut MockProver<Fq>) -> (MockVerdict, Vec<Fq>, Vec<Fq>
         Err(pa) => MockVerdict::Panic(format!("checker: {}: {}", pa.site(), pa.msg)),
         Ok(Ok(())) => MockVerdict::Accept,
         Ok(Err(fs)) => {
+            if std::env::var("ZKSIM_DEBUG").is_ok() {
+                for f in fs.iter().take(4) {
+                    eprintln!("verify failure: {f:?}");
+                }
+            }
             let mut cl: Vec<String> = vec![];
             for f in &fs {
                 let c = failure_class(f).to_string();
